@@ -1,6 +1,8 @@
 //! Leaf monitors (no AIR needed): utils, math, crypto, fri, air component properties.
 use vcommon::Args;
 
+mod c08;
+mod c09;
 mod c10;
 mod c11;
 mod c12;
@@ -17,11 +19,14 @@ mod c24;
 mod c25;
 mod c26;
 mod c27;
+mod frih;
 
 fn main() {
     vcommon::install_panic_hook();
     let args = Args::parse();
     match args.stage.as_str() {
+        "c08" => c08::run(&args),
+        "c09" => c09::run(&args),
         "c10_chains" => c10::chains(&args),
         "c10_lattice" => c10::lattice(&args),
         "c11" => c11::run(&args),
